@@ -202,10 +202,16 @@ class Poison:
         self.why = why
 
 
+class FrameCols(dict):
+    """the columns of a frame (a dict subclass so that the interpreter can tell 'held by a DataFrame' from 'held by a
+    variable / attribute / container of the program' -- pandas 3 is copy-on-write: a Series taken out of a frame never writes
+    through to it)"""
+
+
 class Frame:
     def __init__(self, axis, cols=None, index=None, idkey=None):
         self.axis = axis
-        self.cols = dict(cols or {})
+        self.cols = FrameCols(cols or {})
         self.index = index if index is not None else ("range", axis.name)
         self.idkey = idkey  # name of the column that identifies rows of the root universe (or None)
 
